@@ -9,10 +9,13 @@ package main
 import (
 	"bytes"
 	"context"
+	"encoding/gob"
 	"encoding/json"
+	"encoding/xml"
 	"errors"
 	"fmt"
 	"io"
+	"mime"
 	"net/http"
 	"net/http/httptest"
 	"os"
@@ -96,6 +99,8 @@ var helpers = []helper{
 	{"ErrorEncoder", stressErrorEncoder},
 	{"ResponseEncoder", stressResponseEncoder},
 	{"RequestDecoder", stressRequestDecoder},
+	{"ResponseDecoder", stressResponseDecoder},
+	{"TextCodec", stressTextCodec},
 	{"MuxerVars", stressMuxVars},
 	{"ValidatePattern", stressValidatePattern},
 	{"Samplers", stressSamplers},
@@ -104,48 +109,65 @@ var helpers = []helper{
 	{"MergeErrors", stressMergeErrors},
 }
 
-// goahttp.ErrorEncoder: one closure shared by all requests, nil formatter (the default
-// path the fixed defect d17a564 was on), fresh closure every round so that the first
-// calls of every round are concurrent.
-func stressErrorEncoder(c *collector, n, rounds int, seed uint64) {
-	for r := 0; r < rounds; r++ {
-		var formatter func(context.Context, error) goahttp.Statuser
-		if r%3 == 2 {
-			formatter = func(ctx context.Context, err error) goahttp.Statuser { return goahttp.NewErrorResponse(ctx, err) }
+// holds: what every goroutine got back is KEPT while the other goroutines (and its own
+// later calls) run, and validated again after the barrier. A result that aliases shared
+// storage (a pooled buffer, a reused map, a cached value) is correct when it is returned
+// and wrong afterwards; only the second look sees it.
+type holds [][]func()
+
+func newHolds(n int) holds           { return make(holds, n) }
+func (h holds) add(g int, f func()) { h[g] = append(h[g], f) }
+func (h holds) recheck() {
+	for _, fs := range h {
+		for _, f := range fs {
+			f()
 		}
-		enc := goahttp.ErrorEncoder(goahttp.ResponseEncoder, formatter)
-		barrier(n, func(g int) {
-			for k := 0; k < 4; k++ {
-				id := fmt.Sprintf("e%d-%d-%d-%d", seed, r, g, k)
-				w := httptest.NewRecorder()
-				ctx := context.WithValue(context.Background(), goahttp.AcceptTypeKey, "application/json")
-				var in error = goa.PermanentError("custom_"+id, "msg "+id)
-				wantStatus := http.StatusBadRequest
-				if k%2 == 1 {
-					in = errors.New("plain " + id)
-					wantStatus = http.StatusInternalServerError
-				}
-				if err := enc(ctx, w, in); err != nil {
-					c.fail("error-encoder-failed", err.Error(), id)
-					continue
-				}
-				var got goahttp.ErrorResponse
-				_ = json.Unmarshal(w.Body.Bytes(), &got)
-				if w.Code != wantStatus || !strings.Contains(got.Message, id) {
-					c.fail("error-encoder-foreign-response", fmt.Sprintf("status %d body %s for error %q", w.Code, w.Body.String(), in), id)
-				}
-				c.eval(1)
-			}
-		})
 	}
 }
 
-var accepts = []string{"application/json", "application/xml", "application/gob", "text/plain", "", "application/json; q=0.9", "image/png"}
+// rngs gives every goroutine its own generator so that inputs vary per goroutine.
+func rngs(seed uint64, salt uint64, n int) []*vh.RNG {
+	root := vh.NewRNG(seed*1000003 + salt)
+	out := make([]*vh.RNG, n)
+	for i := range out {
+		out[i] = root.Fork()
+	}
+	return out
+}
 
+// ---- content negotiation vocabulary ----
+
+// Accept values: exact types, types WITH PARAMETERS, q-lists, vendor / suffixed types,
+// wildcards, unsupported types, nothing.
+var acceptPool = []string{
+	"application/json", "application/xml", "application/gob", "text/plain", "text/html", "",
+	"application/json; charset=utf-8", "application/xml; charset=utf-8", "application/xml;q=0.8",
+	"text/plain; charset=iso-8859-1", "text/html; level=1", "application/gob; v=1", "application/json;q=0.1",
+	"application/json;q=0.9, text/plain", "text/html, application/xml;q=0.9", "application/xml, application/json",
+	"*/*", "image/png", "application/vnd.c20+json", "application/vnd.c20+xml", "application/vnd.api+json; ext=x",
+	"APPLICATION/XML", "Text/Plain; Charset=UTF-8",
+}
+
+func supportedExact(a string) string {
+	switch a {
+	case "", "application/json":
+		return "application/json"
+	case "application/xml", "application/gob", "text/html", "text/plain":
+		return a
+	}
+	return ""
+}
+
+// wantCT is the documented negotiation of goahttp.ResponseEncoder written independently:
+// the Accept value itself, else its media type without parameters, else JSON.
 func wantCT(accept string) string {
-	switch accept {
-	case "application/xml", "application/gob", "text/plain":
-		return accept
+	if ct := supportedExact(accept); ct != "" {
+		return ct
+	}
+	if mt, _, err := mime.ParseMediaType(accept); err == nil {
+		if ct := supportedExact(mt); ct != "" {
+			return ct
+		}
 	}
 	return "application/json"
 }
@@ -155,79 +177,392 @@ type echoBody struct {
 	N  int    `json:"n" xml:"n"`
 }
 
-func stressResponseEncoder(c *collector, n, rounds int, seed uint64) {
+// bodyCarries: the body, read in the format the Content-Type announces, is this value.
+func bodyCarries(ct string, body []byte, id string, n int) bool {
+	var got echoBody
+	switch ct {
+	case "application/json":
+		if json.Unmarshal(body, &got) != nil {
+			return false
+		}
+	case "application/xml":
+		if xml.Unmarshal(body, &got) != nil {
+			return false
+		}
+	case "application/gob":
+		if gob.NewDecoder(bytes.NewReader(body)).Decode(&got) != nil {
+			return false
+		}
+	case "text/plain", "text/html":
+		return string(body) == id
+	default:
+		return false
+	}
+	return got.ID == id && got.N == n
+}
+
+// goahttp.ErrorEncoder: one closure shared by all requests, nil formatter (the default
+// path the fixed defect d17a564 was on), fresh closure every round so that the first
+// calls of every round are concurrent. Accept values, error kinds and formatters vary.
+func stressErrorEncoder(c *collector, n, rounds int, seed uint64) {
+	rg := rngs(seed, 1, n)
 	for r := 0; r < rounds; r++ {
+		var formatter func(context.Context, error) goahttp.Statuser
+		if r%3 == 2 {
+			formatter = func(ctx context.Context, err error) goahttp.Statuser { return goahttp.NewErrorResponse(ctx, err) }
+		}
+		enc := goahttp.ErrorEncoder(goahttp.ResponseEncoder, formatter)
+		h := newHolds(n)
 		barrier(n, func(g int) {
-			for k := 0; k < 6; k++ {
-				acc := accepts[(g+k+r)%len(accepts)]
-				id := fmt.Sprintf("r%d-%d-%d-%d", seed, r, g, k)
+			for k := 0; k < 40; k++ {
+				id := fmt.Sprintf("e%d-%d-%d-%d", seed, r, g, k)
+				acc := vh.Pick(rg[g], []string{"application/json", "application/xml", "", "application/json; charset=utf-8", "application/xml;q=0.5"})
 				w := httptest.NewRecorder()
 				ctx := context.WithValue(context.Background(), goahttp.AcceptTypeKey, acc)
-				if k == 5 {
-					ctx = context.WithValue(ctx, goahttp.ContentTypeKey, "application/vnd.x+json")
+				var in error
+				wantStatus := 0
+				switch rg[g].Intn(5) {
+				case 0:
+					in, wantStatus = goa.PermanentError("custom_"+id, "msg "+id), http.StatusBadRequest
+				case 1:
+					in, wantStatus = errors.New("plain "+id), http.StatusInternalServerError
+				case 2:
+					in, wantStatus = goa.TemporaryError("tmp_"+id, "msg "+id), http.StatusServiceUnavailable
+				case 3:
+					in, wantStatus = fmt.Errorf("wrapped: %w", goa.PermanentTimeoutError("to_"+id, "msg "+id)), http.StatusRequestTimeout
+				case 4:
+					in, wantStatus = goa.Fault("msg "+id), http.StatusInternalServerError
 				}
-				enc := goahttp.ResponseEncoder(ctx, w)
-				var v any = echoBody{id, g}
-				if wantCT(acc) == "text/plain" && k != 5 {
-					v = id
-				}
-				if err := enc.Encode(v); err != nil {
-					c.fail("response-encoder-failed", err.Error(), id)
+				if err := enc(ctx, w, in); err != nil {
+					c.fail("error-encoder-failed", err.Error(), id)
 					continue
 				}
-				ct := w.Header().Get("Content-Type")
-				want := wantCT(acc)
-				if k == 5 {
-					want = "application/vnd.x+json"
+				check := func(when string) {
+					var got goahttp.ErrorResponse
+					ct := w.Header().Get("Content-Type")
+					if ct == "application/xml" {
+						var x struct {
+							Message string `xml:"message"`
+						}
+						_ = xml.Unmarshal(w.Body.Bytes(), &x)
+						got.Message = x.Message
+					} else {
+						_ = json.Unmarshal(w.Body.Bytes(), &got)
+					}
+					if w.Code != wantStatus || !strings.Contains(got.Message, id) || ct != wantCT(acc) {
+						c.fail("error-encoder-foreign-response", fmt.Sprintf("%s: status %d Content-Type %q body %s for error %q with Accept %q (expected status %d, %q)", when, w.Code, ct, w.Body.String(), in, acc, wantStatus, wantCT(acc)), id)
+					}
 				}
-				if ct != want {
-					c.fail("content-type-leak", fmt.Sprintf("Accept %q: Content-Type %q, expected %q", acc, ct, want), map[string]any{"accept": acc, "id": id})
-				}
-				if want != "application/gob" && !strings.Contains(w.Body.String(), id) {
-					c.fail("response-encoder-foreign-body", fmt.Sprintf("body %q does not carry %q", w.Body.String(), id), id)
-				}
+				check("on return")
+				h.add(g, func() { check("after the barrier") })
 				c.eval(1)
 			}
 		})
+		h.recheck()
 	}
 }
 
-func stressRequestDecoder(c *collector, n, rounds int, seed uint64) {
+// reference: the helper called alone, one value at a time, in two different orders
+func negotiationReference(c *collector) map[string]string {
+	ref := map[string]string{}
+	one := func(acc string) string {
+		w := httptest.NewRecorder()
+		goahttp.ResponseEncoder(context.WithValue(context.Background(), goahttp.AcceptTypeKey, acc), w)
+		return w.Header().Get("Content-Type")
+	}
+	for _, a := range acceptPool {
+		ref[a] = one(a)
+	}
+	for i := len(acceptPool) - 1; i >= 0; i-- {
+		if got := one(acceptPool[i]); got != ref[acceptPool[i]] {
+			c.fail("negotiation-depends-on-history", fmt.Sprintf("Accept %q negotiates %q after one sequence of calls and %q after another", acceptPool[i], ref[acceptPool[i]], got), acceptPool[i])
+		}
+	}
+	for _, a := range acceptPool {
+		if ref[a] != wantCT(a) {
+			c.fail("negotiation-not-as-documented", fmt.Sprintf("alone, Accept %q negotiates %q; documented rule gives %q", a, ref[a], wantCT(a)), a)
+		}
+	}
+	return ref
+}
+
+func stressResponseEncoder(c *collector, n, rounds int, seed uint64) {
+	ref := negotiationReference(c)
+	rg := rngs(seed, 2, n)
+	designed := []string{"", "", "", "application/vnd.x+json", "application/vnd.y+xml; charset=utf-8", "text/html"}
 	for r := 0; r < rounds; r++ {
+		h := newHolds(n)
 		barrier(n, func(g int) {
-			for k := 0; k < 5; k++ {
-				id := fmt.Sprintf("d%d-%d-%d-%d", seed, r, g, k)
-				var body, ct string
-				if k == 4 {
-					// unsupported media type: the error must name this request's type
-					req := httptest.NewRequest("POST", "/", strings.NewReader("x"))
-					req.Header.Set("Content-Type", "application/x-"+id)
-					var v any
-					if err := goahttp.RequestDecoder(req).Decode(&v); err == nil || !strings.Contains(err.Error(), "application/x-"+id) {
-						c.fail("request-decoder-foreign-payload", fmt.Sprintf("unsupported media type error %v does not name application/x-%s", err, id), id)
+			for k := 0; k < 160; k++ {
+				acc := vh.Pick(rg[g], acceptPool)
+				des := vh.Pick(rg[g], designed)
+				id := fmt.Sprintf("r%d-%d-%d-%d", seed, r, g, k)
+				w := httptest.NewRecorder()
+				ctx := context.WithValue(context.Background(), goahttp.AcceptTypeKey, acc)
+				want := ref[acc]
+				format := want
+				if des != "" {
+					ctx = context.WithValue(ctx, goahttp.ContentTypeKey, des)
+					want, _, _ = mime.ParseMediaType(des)
+					switch {
+					case strings.HasSuffix(want, "+json"):
+						format = "application/json"
+					case strings.HasSuffix(want, "+xml"):
+						format = "application/xml"
+					default:
+						format = want
 					}
-					c.eval(1)
+				}
+				enc := goahttp.ResponseEncoder(ctx, w)
+				var v any = echoBody{id, g}
+				if strings.HasPrefix(format, "text/") {
+					switch k % 3 {
+					case 0:
+						v = id
+					case 1:
+						s := id
+						v = &s
+					default:
+						v = []byte(id)
+					}
+				}
+				if err := enc.Encode(v); err != nil {
+					c.fail("response-encoder-failed", fmt.Sprintf("Accept %q designed %q: %v", acc, des, err), id)
 					continue
 				}
-				switch k % 3 {
-				case 0:
-					body, ct = fmt.Sprintf(`{"id":%q,"n":%d}`, id, g), "application/json"
-				case 1:
-					body, ct = fmt.Sprintf(`<echoBody><id>%s</id><n>%d</n></echoBody>`, id, g), "application/xml; charset=utf-8"
-				case 2:
-					body, ct = fmt.Sprintf(`{"id":%q,"n":%d}`, id, g), ""
+				check := func(when string) {
+					ct := w.Header().Get("Content-Type")
+					if ct != want {
+						c.fail("content-type-leak", fmt.Sprintf("%s: Accept %q (designed %q): Content-Type %q, expected %q", when, acc, des, ct, want), map[string]any{"accept": acc, "designed": des, "id": id})
+					}
+					if !bodyCarries(format, w.Body.Bytes(), id, g) {
+						c.fail("response-encoder-foreign-body", fmt.Sprintf("%s: Accept %q (designed %q): body %q is not %q in format %s", when, acc, des, w.Body.String(), id, format), id)
+					}
 				}
-				req := httptest.NewRequest("POST", "/", strings.NewReader(body))
+				check("on return")
+				h.add(g, func() { check("after the barrier") })
+				c.eval(1)
+			}
+		})
+		h.recheck()
+	}
+}
+
+// request bodies: every supported type with and without parameters, text for *string
+// and *[]byte targets, missing and unsupported types; decoded values are held.
+func stressRequestDecoder(c *collector, n, rounds int, seed uint64) {
+	rg := rngs(seed, 3, n)
+	cts := []string{"application/json", "application/json; charset=utf-8", "", "application/xml", "application/xml; charset=utf-8", "application/gob",
+		"text/plain", "text/plain; charset=utf-8", "text/html", "text/html; charset=utf-8", "application/x-unsupported", "application/vnd.c20+json"}
+	for r := 0; r < rounds; r++ {
+		h := newHolds(n)
+		barrier(n, func(g int) {
+			for k := 0; k < 40; k++ {
+				id := fmt.Sprintf("d%d-%d-%d-%d", seed, r, g, k)
+				ct := vh.Pick(rg[g], cts)
+				mt, _, _ := mime.ParseMediaType(ct)
+				var body []byte
+				switch mt {
+				case "application/json", "":
+					body = []byte(fmt.Sprintf(`{"id":%q,"n":%d}`, id, g))
+				case "application/xml":
+					body = []byte(fmt.Sprintf(`<echoBody><id>%s</id><n>%d</n></echoBody>`, id, g))
+				case "application/gob":
+					var b bytes.Buffer
+					gob.NewEncoder(&b).Encode(echoBody{id, g}) // nolint
+					body = b.Bytes()
+				default:
+					body = []byte(strings.Repeat(id+"|", 1+rg[g].Intn(40)))
+				}
+				req := httptest.NewRequest("POST", "/", bytes.NewReader(body))
 				if ct != "" {
 					req.Header.Set("Content-Type", ct)
 				}
-				var got echoBody
-				if err := goahttp.RequestDecoder(req).Decode(&got); err != nil || got.ID != id || got.N != g {
-					c.fail("request-decoder-foreign-payload", fmt.Sprintf("decoded %+v (err %v) from %s", got, err, body), id)
+				dec := goahttp.RequestDecoder(req)
+				switch mt {
+				case "text/plain", "text/html":
+					want := string(body)
+					if rg[g].Bool() {
+						var got []byte
+						err := dec.Decode(&got)
+						check := func(when string) {
+							if err != nil || string(got) != want {
+								c.fail("decoded-bytes-changed", fmt.Sprintf("%s: %s body decoded into *[]byte is %.60q (err %v), the request carried %.60q", when, ct, got, err, want), id)
+							}
+						}
+						check("on return")
+						h.add(g, func() { check("after the barrier") })
+					} else {
+						var got string
+						err := dec.Decode(&got)
+						check := func(when string) {
+							if err != nil || got != want {
+								c.fail("decoded-string-changed", fmt.Sprintf("%s: %s body decoded into *string is %.60q (err %v), the request carried %.60q", when, ct, got, err, want), id)
+							}
+						}
+						check("on return")
+						h.add(g, func() { check("after the barrier") })
+					}
+				case "application/x-unsupported", "application/vnd.c20+json":
+					var v any
+					err := dec.Decode(&v)
+					h.add(g, func() {
+						if err == nil || !strings.Contains(err.Error(), mt) {
+							c.fail("request-decoder-foreign-payload", fmt.Sprintf("unsupported media type error %v does not name %s", err, mt), id)
+						}
+					})
+				default:
+					got := new(echoBody)
+					err := dec.Decode(got)
+					check := func(when string) {
+						if err != nil || got.ID != id || got.N != g {
+							c.fail("request-decoder-foreign-payload", fmt.Sprintf("%s: decoded %+v (err %v) from a %q body carrying %s", when, *got, err, ct, id), id)
+						}
+					}
+					check("on return")
+					h.add(g, func() { check("after the barrier") })
 				}
 				c.eval(1)
 			}
 		})
+		h.recheck()
+	}
+}
+
+// response bodies on the client side (goahttp.ResponseDecoder), same vocabulary plus
+// suffixed vendor types, which the response decoder does understand.
+func stressResponseDecoder(c *collector, n, rounds int, seed uint64) {
+	rg := rngs(seed, 4, n)
+	cts := []string{"application/json", "application/json; charset=utf-8", "", "application/xml", "application/vnd.c20+xml; charset=utf-8", "application/vnd.c20+json",
+		"application/gob", "text/plain", "text/plain; charset=utf-8", "text/html", "application/x-whatever"}
+	for r := 0; r < rounds; r++ {
+		h := newHolds(n)
+		barrier(n, func(g int) {
+			for k := 0; k < 40; k++ {
+				id := fmt.Sprintf("p%d-%d-%d-%d", seed, r, g, k)
+				ct := vh.Pick(rg[g], cts)
+				mt, _, _ := mime.ParseMediaType(ct)
+				format := "json"
+				switch {
+				case mt == "application/xml" || strings.HasSuffix(mt, "+xml"):
+					format = "xml"
+				case mt == "application/gob":
+					format = "gob"
+				case mt == "text/plain" || mt == "text/html":
+					format = "text"
+				}
+				var body []byte
+				switch format {
+				case "json":
+					body = []byte(fmt.Sprintf(`{"id":%q,"n":%d}`, id, g))
+				case "xml":
+					body = []byte(fmt.Sprintf(`<echoBody><id>%s</id><n>%d</n></echoBody>`, id, g))
+				case "gob":
+					var b bytes.Buffer
+					gob.NewEncoder(&b).Encode(echoBody{id, g}) // nolint
+					body = b.Bytes()
+				default:
+					body = []byte(strings.Repeat(id+"|", 1+rg[g].Intn(40)))
+				}
+				resp := &http.Response{StatusCode: 200, Header: http.Header{}, Body: io.NopCloser(bytes.NewReader(body))}
+				if ct != "" {
+					resp.Header.Set("Content-Type", ct)
+				}
+				dec := goahttp.ResponseDecoder(resp)
+				if format == "text" {
+					want := string(body)
+					if rg[g].Bool() {
+						var got []byte
+						err := dec.Decode(&got)
+						check := func(when string) {
+							if err != nil || string(got) != want {
+								c.fail("decoded-bytes-changed", fmt.Sprintf("%s: %s response decoded into *[]byte is %.60q (err %v), the response carried %.60q", when, ct, got, err, want), id)
+							}
+						}
+						check("on return")
+						h.add(g, func() { check("after the barrier") })
+					} else {
+						var got string
+						err := dec.Decode(&got)
+						check := func(when string) {
+							if err != nil || got != want {
+								c.fail("decoded-string-changed", fmt.Sprintf("%s: %s response decoded into *string is %.60q (err %v)", when, ct, got, err), id)
+							}
+						}
+						check("on return")
+						h.add(g, func() { check("after the barrier") })
+					}
+				} else {
+					got := new(echoBody)
+					err := dec.Decode(got)
+					check := func(when string) {
+						if err != nil || got.ID != id || got.N != g {
+							c.fail("response-decoder-foreign-result", fmt.Sprintf("%s: decoded %+v (err %v) from a %q response carrying %s", when, *got, err, ct, id), id)
+						}
+					}
+					check("on return")
+					h.add(g, func() { check("after the barrier") })
+				}
+				c.eval(1)
+			}
+		})
+		h.recheck()
+	}
+}
+
+// the text encoder / decoder pair end to end: what one goroutine encodes (string, *string,
+// []byte) is decoded back (into *string, *[]byte), held, and compared again later.
+func stressTextCodec(c *collector, n, rounds int, seed uint64) {
+	rg := rngs(seed, 5, n)
+	for r := 0; r < rounds; r++ {
+		h := newHolds(n)
+		barrier(n, func(g int) {
+			for k := 0; k < 40; k++ {
+				id := fmt.Sprintf("t%d-%d-%d-%d", seed, r, g, k)
+				ct := vh.Pick(rg[g], []string{"text/plain", "text/html", "text/plain; charset=utf-8"})
+				text := strings.Repeat(id+"~", 1+rg[g].Intn(60))
+				w := httptest.NewRecorder()
+				ctx := context.WithValue(context.Background(), goahttp.AcceptTypeKey, ct)
+				var v any
+				switch rg[g].Intn(3) {
+				case 0:
+					v = text
+				case 1:
+					s := text
+					v = &s
+				default:
+					v = []byte(text)
+				}
+				if err := goahttp.ResponseEncoder(ctx, w).Encode(v); err != nil {
+					c.fail("text-encoder-failed", err.Error(), id)
+					continue
+				}
+				req := httptest.NewRequest("POST", "/", bytes.NewReader(w.Body.Bytes()))
+				req.Header.Set("Content-Type", w.Header().Get("Content-Type"))
+				var gotB []byte
+				var gotS string
+				var err error
+				asBytes := rg[g].Bool()
+				if asBytes {
+					err = goahttp.RequestDecoder(req).Decode(&gotB)
+				} else {
+					err = goahttp.RequestDecoder(req).Decode(&gotS)
+				}
+				check := func(when string) {
+					got := gotS
+					if asBytes {
+						got = string(gotB)
+					}
+					if err != nil || got != text {
+						c.fail("text-codec-value-changed", fmt.Sprintf("%s: text sent as %T through %s came back as %.60q (err %v), sent %.60q", when, v, ct, got, err, text), id)
+					}
+				}
+				check("on return")
+				h.add(g, func() { check("after the barrier") })
+				c.eval(1)
+			}
+		})
+		h.recheck()
 	}
 }
 
@@ -235,22 +570,30 @@ func stressRequestDecoder(c *collector, n, rounds int, seed uint64) {
 func stressMuxVars(c *collector, n, rounds int, seed uint64) {
 	mux := goahttp.NewMuxer()
 	mux.Use(func(h http.Handler) http.Handler { return h })
+	type seen struct {
+		vars    map[string]string
+		pattern string
+	}
+	// handlers publish the map Vars returned (not a copy): the caller re-reads it later
+	var results sync.Map
 	h := func(w http.ResponseWriter, r *http.Request) {
-		vars := mux.Vars(r)
-		b, _ := json.Marshal(map[string]any{"vars": vars, "pattern": mux.ResolvePattern(r)})
-		w.Write(b) // nolint
+		results.Store(r.Header.Get("X-Req"), seen{mux.Vars(r), mux.ResolvePattern(r)})
 	}
 	mux.Handle("GET", "/a/{id}", h)
 	mux.Handle("GET", "/a/{id}/b/{sub}", h)
 	mux.Handle("GET", "/f/{*path}", h)
 	mux.Handle("POST", "/g/{*rest}", h)
+	mux.Handle("PUT", "/a/{id}", h)
+	mux.Handle("GET", "/plain", h)
+	rg := rngs(seed, 6, n)
 	for r := 0; r < rounds; r++ {
+		hd := newHolds(n)
 		barrier(n, func(g int) {
-			for k := 0; k < 6; k++ {
+			for k := 0; k < 30; k++ {
 				id := fmt.Sprintf("v%d-%d-%d-%d", seed, r, g, k)
 				var method, path, pattern string
 				want := map[string]string{}
-				switch k % 4 {
+				switch rg[g].Intn(7) {
 				case 0:
 					method, path, pattern = "GET", "/a/"+id, "/a/{id}"
 					want["id"] = id
@@ -263,48 +606,71 @@ func stressMuxVars(c *collector, n, rounds int, seed uint64) {
 				case 3:
 					method, path, pattern = "POST", "/g/"+id, "/g/{*rest}"
 					want["rest"] = id
+				case 4:
+					method, path, pattern = "PUT", "/a/"+id, "/a/{id}"
+					want["id"] = id
+				case 5:
+					method, path, pattern = "GET", "/a/%7E"+id, "/a/{id}"
+					want["id"] = "~" + id
+				case 6:
+					method, path, pattern = "GET", "/plain", "/plain"
+					want = nil
 				}
-				w := httptest.NewRecorder()
-				mux.ServeHTTP(w, httptest.NewRequest(method, path, nil))
-				var got struct {
-					Vars    map[string]string `json:"vars"`
-					Pattern string            `json:"pattern"`
+				req := httptest.NewRequest(method, path, nil)
+				req.Header.Set("X-Req", id)
+				mux.ServeHTTP(httptest.NewRecorder(), req)
+				v, _ := results.Load(id)
+				got, _ := v.(seen)
+				check := func(when string) {
+					if fmt.Sprint(got.vars) != fmt.Sprint(want) || got.pattern != pattern {
+						c.fail("mux-vars-foreign", fmt.Sprintf("%s: %s %s: vars %v pattern %q, expected %v %q", when, method, path, got.vars, got.pattern, want, pattern), path)
+					}
 				}
-				_ = json.Unmarshal(w.Body.Bytes(), &got)
-				if fmt.Sprint(got.Vars) != fmt.Sprint(want) || got.Pattern != pattern {
-					c.fail("mux-vars-foreign", fmt.Sprintf("%s %s: vars %v pattern %q, expected %v %q", method, path, got.Vars, got.Pattern, want, pattern), path)
-				}
+				check("on return")
+				hd.add(g, func() { check("after the barrier") })
 				c.eval(1)
 			}
 		})
+		hd.recheck()
 	}
 }
 
 func stressValidatePattern(c *collector, n, rounds int, seed uint64) {
-	shared := []string{`^[a-z]+$`, `^[0-9]{2,4}$`, `c20.*end`, `^(a|b)+c$`}
-	vals := []string{"abc", "123", "c20 the end", "ababc", "ABC", "", "12345"}
+	shared := []string{`^[a-z]+$`, `^[0-9]{2,4}$`, `c20.*end`, `^(a|b)+c$`, `^\p{L}+$`, `(?i)^ok$`}
+	vals := []string{"abc", "123", "c20 the end", "ababc", "ABC", "", "12345", "Ok", "été"}
+	rg := rngs(seed, 7, n)
 	for r := 0; r < rounds; r++ {
+		h := newHolds(n)
 		barrier(n, func(g int) {
-			for k := 0; k < 8; k++ {
+			for k := 0; k < 24; k++ {
 				var p string
-				if k%2 == 0 {
-					p = shared[(g+k)%len(shared)]
+				if rg[g].Bool() {
+					p = vh.Pick(rg[g], shared)
 				} else {
 					// a pattern never seen before: takes the write path of the cache
 					p = fmt.Sprintf(`^fresh_%d_%d_%d_%d_[a-z]*$`, seed, r, g, k)
 				}
-				v := vals[(g*3+k)%len(vals)]
-				if k%4 == 1 {
+				v := vh.Pick(rg[g], vals)
+				if rg[g].Chance(1, 3) {
 					v = fmt.Sprintf("fresh_%d_%d_%d_%d_xyz", seed, r, g, k)
 				}
-				err := goa.ValidatePattern("f", v, p)
+				name := fmt.Sprintf("f%d_%d", g, k)
+				err := goa.ValidatePattern(name, v, p)
 				want := regexp.MustCompile(p).MatchString(v)
-				if (err == nil) != want {
-					c.fail("validate-pattern-wrong-verdict", fmt.Sprintf("ValidatePattern(%q, %q) = %v, regexp says %v", v, p, err, want), map[string]string{"val": v, "pattern": p})
+				check := func(when string) {
+					if (err == nil) != want {
+						c.fail("validate-pattern-wrong-verdict", fmt.Sprintf("%s: ValidatePattern(%q, %q) = %v, regexp says %v", when, v, p, err, want), map[string]string{"val": v, "pattern": p})
+					}
+					if err != nil && !(strings.Contains(err.Error(), name) && strings.Contains(err.Error(), fmt.Sprintf("%q", p))) {
+						c.fail("validate-pattern-foreign-error", fmt.Sprintf("%s: error %q does not name field %s and pattern %q", when, err, name, p), map[string]string{"val": v, "pattern": p})
+					}
 				}
+				check("on return")
+				h.add(g, func() { check("after the barrier") })
 				c.eval(1)
 			}
 		})
+		h.recheck()
 	}
 }
 
@@ -417,26 +783,51 @@ func stressSkipResponseWriter(c *collector, n, rounds int, seed uint64) {
 }
 
 func stressMergeErrors(c *collector, n, rounds int, seed uint64) {
+	rg := rngs(seed, 8, n)
 	for r := 0; r < rounds; r++ {
+		h := newHolds(n)
 		barrier(n, func(g int) {
 			for k := 0; k < 5; k++ {
 				id := fmt.Sprintf("m%d-%d-%d-%d", seed, r, g, k)
 				var err error
-				err = goa.MergeErrors(err, goa.MissingFieldError("a"+id, "body"))
-				err = goa.MergeErrors(err, goa.InvalidLengthError("b"+id, id, len(id), 2, false))
-				se, ok := err.(*goa.ServiceError)
-				if !ok || !strings.Contains(se.Message, "a"+id) || !strings.Contains(se.Message, "b"+id) || len(se.History()) != 2 {
-					c.fail("merge-errors-foreign", fmt.Sprintf("%v", err), id)
+				parts := 2 + rg[g].Intn(3)
+				for i := 0; i < parts; i++ {
+					switch rg[g].Intn(4) {
+					case 0:
+						err = goa.MergeErrors(err, goa.MissingFieldError(fmt.Sprintf("a%d%s", i, id), "body"))
+					case 1:
+						err = goa.MergeErrors(err, goa.InvalidLengthError(fmt.Sprintf("a%d%s", i, id), id, len(id), 2, false))
+					case 2:
+						err = goa.MergeErrors(err, fmt.Errorf("a%d%s plain", i, id))
+					case 3:
+						err = goa.MergeErrors(err, goa.InvalidEnumValueError(fmt.Sprintf("a%d%s", i, id), id, []any{"x", "y"}))
+					}
 				}
+				check := func(when string) {
+					se, ok := err.(*goa.ServiceError)
+					bad := !ok || len(se.History()) != parts
+					for i := 0; ok && i < parts; i++ {
+						bad = bad || !strings.Contains(se.Message, fmt.Sprintf("a%d%s", i, id))
+					}
+					if bad {
+						c.fail("merge-errors-foreign", fmt.Sprintf("%s: %v does not carry the %d errors of %s", when, err, parts, id), id)
+					}
+				}
+				check("on return")
+				h.add(g, func() { check("after the barrier") })
 				c.eval(1)
 			}
 		})
+		h.recheck()
 	}
 }
 
 func tierParams(tier string) (n, rounds int) {
-	if tier == "thorough" {
+	switch tier {
+	case "thorough":
 		return 64, 40
+	case "search": // after a broken proof, binary built with -race
+		return 32, 10
 	}
 	return 16, 40
 }
